@@ -44,6 +44,7 @@ type world struct {
 	ledger *ledger
 	past   map[uint64]*pastCommittee
 	halted bool
+	dex    *dexWorld
 	cur    *node // node whose process the simulator is currently "inside"
 }
 
@@ -127,6 +128,12 @@ func (w *world) buildGenesis(nVals int) {
 		return a
 	}
 	stakes := []uint64{1_000_000, 1_000_000, 2_000_000, 500_000, 1_000_000, 3, 1_000_000}
+	if (c.Prop == "C02" || c.Prop == "C13") && t.Chance(1, 2) {
+		// tiny weighted stakes: subsets whose power is exactly one short of floor(2T/3)+1 exist
+		stakes = []uint64{1, 2, 3, 2, 1, 3, 1}
+		p.Validator.MinimumStakeForValidators = 0
+		c.Probe("genesis_tiny_weighted_stakes")
+	}
 	for i := 0; i < nVals; i++ {
 		a := addActor("bls", fmt.Sprintf("val%d", i), true)
 		out := a.addr
@@ -150,6 +157,9 @@ func (w *world) buildGenesis(nVals int) {
 			amt = 40_000_000
 		}
 		w.genesis.Accounts = append(w.genesis.Accounts, &fsm.Account{Address: a.addr, Amount: amt})
+	}
+	if c.Prop == "C20" {
+		w.dexGenesis()
 	}
 	// pools: DAO and the reward pool of chain 1 start non-empty in some runs
 	if t.Chance(1, 2) {
